@@ -166,6 +166,10 @@ func (s *ServerDNS) Start(ctx context.Context) (err error) {
 		return ErrServerAlreadyStarted
 	}
 
+	// Shutdown releases the worker pool, so reopen it in case the server is
+	// started again.  This does nothing if the pool is open.
+	s.workerPool.Reboot()
+
 	log.Info("[%s]: Starting the server", s.Name())
 
 	ctx = ContextWithServerInfo(ctx, &ServerInfo{
